@@ -35,7 +35,7 @@ def data_and_options(cfg, val, sym):
     times = []
     widths = []
     for i in range(n):
-        w = val("w%d" % i, 1, 120)
+        w = float(cfg["fixedw"][i]) if cfg.get("fixedw") else val("w%d" % i, 1, 120)
         widths.append(w)
         if sc.startswith("linear"):
             if sc == "linear-explicit":
@@ -255,11 +255,14 @@ def tl_spec(tag, **kw):
 
 
 def c10_configs(tier):
-    A_time = tl_spec("A", scale="time-derived", n=2, ctimes=["2020-01-01T00:00:00", "2020-03-01T12:00:00"], optvar="empty")
+    A_time = tl_spec("A", scale="time-derived", n=2, ctimes=["2020-01-01T00:00:00", "2020-03-01T12:00:00"], optvar="empty", texts=[1, 2])
     B_time = tl_spec("B", scale="time-derived", n=2, ctimes=["1990-01-01T00:00:00", "1999-03-01T00:00:00"], optvar="partial", direction="up")
     C_time = tl_spec("C", scale="time-derived", n=3, ctimes=["2021-06-15T00:00:00.001", "2021-06-15T00:00:00.004", "2021-06-15T00:00:00.002"], optvar="none", mode="tex")
     A_lin = tl_spec("A", scale="linear-explicit", n=2, optvar="partial", direction="down")
     B_lin = tl_spec("B", scale="linear-explicit", n=2, optvar="partial", direction="left", mode="tex")
+    # text labels drawn left / right (their item sizes are rotated once at construction): fixed widths, repeated exports
+    G_rot = tl_spec("G", scale="linear-derived", n=2, ctimes=[10.0, 40.0], fixedw=[30, 50], texts=[1, 3], optvar="partial", direction="left", mode="tex")
+    H_rot = tl_spec("H", scale="linear-derived", n=2, ctimes=[5.0, 45.0], fixedw=[44, 21], texts=[2, 1], optvar="partial", direction="right", mode="svg")
     # crowded timeline whose layer 0 holds neighbouring stubs (line spacing matters) and one that sets its own lineSpacing
     Q = tl_spec("Q", scale="linear-derived", n=5, ctimes=[50.0, 50.5, 51.0, 51.5, 49.5], optvar="partial", labella={"maxPos": 150, "algorithm": "overlap"}, direction="down", fixedw=[60, 60, 60, 60, 60])
     P = tl_spec("P", scale="linear-derived", n=5, ctimes=[10.0, 10.5, 11.0, 11.5, 12.0], optvar="partial", labella={"maxPos": 150, "lineSpacing": 9, "nodeSpacing": 5}, direction="down", fixedw=[60, 60, 60, 60, 60], mode="tex")
@@ -268,6 +271,7 @@ def c10_configs(tier):
     E_time = tl_spec("E", scale="time-derived", n=2, ctimes=["2021-03-01T06:30:00", "2021-03-20T18:00:00"], optvar="partial", direction="down", share_opts="S1")
     F_time = tl_spec("F", scale="time-derived", n=2, ctimes=["1999-01-05T00:00:00", "1999-11-25T12:00:00"], optvar="partial", direction="down", share_opts="S1")
     pairs.append(("sameopts", [E_time, F_time]))
+    pairs.append(("rotated", [G_rot, H_rot]))
     hists2 = [["c0", "c1", "e0", "e1"], ["c0", "c1", "e1", "e0"], ["c0", "e0", "c1", "e0", "e1"], ["c0", "c1", "e0", "e0", "e1", "e1"], ["c1", "e1", "c0", "e0", "e1"]]
     out = []
     for pn, tls in pairs:
@@ -388,6 +392,7 @@ def picture(cfg, val, sym, mode):
     tl, data, opts, info = build(cfg, val, sym, mode)
     doc = export(tl, mode)
     P = docs.parse_svg(doc) if mode == "svg" else docs.parse_tikz(doc)
+    tl._supplied_times = list(info["times"])
     return tl, data, P
 
 
@@ -420,6 +425,11 @@ def pic_configs(tier, prop):
                 if tier == "quick" and (k % 2) and prop != "c08":
                     continue
                 out.append(mk_cfg("%s-%s-layers-%s-%s" % (prop, mode, alg, d), mode=mode, scale="linear-explicit", direction=d, n=3, labella={"maxPos": 120, "algorithm": alg}, vpsc="contract", texts=[1, 0, 3], layergap=(60, 3, 1)[k % 3], weight=40, shards=4))
+    if prop == "c07" and tier != "quick":
+        # three layers (a label two layers out owns a chain of two stubs): five labels of fixed width, symbolic times
+        # (about 4 minutes on 16 cores: thorough tier only)
+        for mode, d in (("svg", "down"),):
+            out.append(mk_cfg("c07-%s-three-layers-%s" % (mode, d), mode=mode, scale="linear-explicit", direction=d, n=5, fixedw=[60, 60, 60, 60, 60], labella={"maxPos": 130, "algorithm": "overlap"}, vpsc="contract", texts=[0, 1, 0, 0, 0], weight=300, shards=12))
     # derived domains on concrete data (date / time-of-day / datetime with time of day, unsorted, algorithm none)
     shapes = [["2021-01-31T10:15:00", "2021-01-29T23:59:59.999"], ["date:2021-01-30", "date:2021-03-31"], ["2021-03-01T06:00:00", "2021-03-01T18:30:00", "2021-03-02T01:00:00"]]
     for si, ts in enumerate(shapes):
@@ -427,6 +437,10 @@ def pic_configs(tier, prop):
             k += 1
             out.append(mk_cfg("%s-%s-derived-%d" % (prop, mode, si), mode=mode, scale="time-derived", n=len(ts), ctimes=ts, direction=DIRS[k % 4], texts=[1, 4, 3], labella={"algorithm": "none"} if si == 0 else None))
     if prop == "c08":
+        # bordered TikZ / SVG boxes with unequal widths (the bordered TikZ branch draws its own rectangle)
+        for d in DIRS:
+            for mode in ("svg", "tex"):
+                out.append(mk_cfg("c08-border-%s-%s" % (mode, d), mode=mode, scale="linear-explicit", direction=d, n=2, border=True, texts=[1, 2], layergap=(12, 60)[DIRS.index(d) % 2], weight=6))
         # custom padding whose left+right differs from top+bottom by 3 or more (the solver width and the drawn box must agree)
         for d in DIRS:
             for mode in ("svg", "tex"):
@@ -456,7 +470,7 @@ def c07(sink, cfg, val, sym):
         forceh.use_contract(False)
     V = docs.Vals(sink.e) if sym else docs.ConcVals()
     aff = affine_fn(cfg, tl)
-    pic.c07(sink, cfg, tl, data, P, V, aff, cfg["mode"], uni2tex)
+    pic.c07(sink, cfg, tl, data, P, V, aff, cfg["mode"], uni2tex, times=tl._supplied_times)
     pic.ticks_c07(sink, cfg, tl, P, V, aff, fmt_ticks(tl))
 
 
